@@ -113,15 +113,97 @@ func runC30(c *an.Ctx) {
 	fns := p.PkgFuncs(c30Gw)
 	pwl := p.Func(c30Gw, "", "parseRangeWithoutLength")
 	pr := p.Func(c30Gw, "", "parseRange")
-	hsc := p.Func(c30Gw, "", "httpServeContent")
+	// the serving function, by role: the function of package gateway that copies the body to an
+	// http.ResponseWriter parameter with io.CopyN after evaluating checkPreconditions
+	var hsc *ssa.Function
+	for _, fn := range fns {
+		for _, cl := range an.Calls(fn, an.M("io", "", "CopyN")) {
+			for _, r := range an.Roots(cl.Common().Args[0], nil) {
+				if prm, ok := r.(*ssa.Parameter); ok && an.TypeIs(prm.Type(), "net/http", "ResponseWriter") && len(an.Calls(fn, an.M(c30Gw, "", "checkPreconditions"))) > 0 {
+					hsc = fn
+				}
+			}
+		}
+	}
 	cpre := p.Func(c30Gw, "", "checkPreconditions")
 	cir := p.Func(c30Gw, "", "checkIfRange")
 	sts := p.Func(c30Gw, "", "seekToRangeStart")
-	if !c.Need(pwl != nil && pr != nil && hsc != nil && cpre != nil && cir != nil && sts != nil, "gateway.{parseRangeWithoutLength,parseRange,httpServeContent,checkPreconditions,checkIfRange,seekToRangeStart}") {
+	if !c.Need(pwl != nil && pr != nil && hsc != nil && cpre != nil && cir != nil && sts != nil, "gateway.{parseRangeWithoutLength,parseRange,checkPreconditions,checkIfRange,seekToRangeStart} and the function that io.CopyN-s the body to the ResponseWriter") {
 		return
 	}
 
 	// ---------------- O1: reads of the Range header
+	// A package-local function that returns the header value is part of the canonical pipeline: it is
+	// "sanitised" when the value it returns has passed the If-Range decision on every path, "raw"
+	// otherwise; a call of a raw one is treated like a read of the header in the caller.
+	kind := map[*ssa.Function]string{}
+	var kindOf func(fn *ssa.Function, depth int) string
+	localCallee := func(cl ssa.CallInstruction, self *ssa.Function) *ssa.Function {
+		g := an.Callee(cl).Static
+		if g == nil || g == self || len(g.Blocks) == 0 || g.Pkg == nil || g.Pkg.Pkg.Path() != an.Mod+"/"+c30Gw || g.Name() == "headerGetExact" {
+			return nil
+		}
+		return g
+	}
+	srcsOf := func(fn *ssa.Function, depth int) (raw, clean []ssa.Value) {
+		for _, cl := range an.AllCalls(fn) {
+			cv := an.CallValue(cl)
+			if cv == nil {
+				continue
+			}
+			if c30ReqHeaderRead(cl, "Range") {
+				raw = append(raw, cv)
+				continue
+			}
+			if g := localCallee(cl, fn); g != nil && depth < 3 {
+				// only single-string-result helpers and the (done, header) shape of checkPreconditions
+				switch kindOf(g, depth+1) {
+				case "raw":
+					raw = append(raw, an.Result(cl, c30StringResult(g))...)
+				case "sanitised":
+					clean = append(clean, an.Result(cl, c30StringResult(g))...)
+				}
+			}
+		}
+		return
+	}
+	kindOf = func(fn *ssa.Function, depth int) string {
+		if k, ok := kind[fn]; ok {
+			return k
+		}
+		kind[fn] = ""
+		idx := c30StringResult(fn)
+		if idx < 0 {
+			return ""
+		}
+		raw, clean := srcsOf(fn, depth)
+		res := ""
+		for _, r := range an.Returns(fn) {
+			if idx >= len(r.Results) {
+				continue
+			}
+			v := r.Results[idx]
+			for _, src := range raw {
+				if c30DerivesFrom(v, map[ssa.Value]bool{src: true}) {
+					if c30RawSurvivesIfRange(fn, v, src, r) {
+						res = "raw"
+					} else if res == "" {
+						res = "sanitised"
+					}
+				}
+			}
+			for _, src := range clean {
+				if c30DerivesFrom(v, map[ssa.Value]bool{src: true}) && res == "" {
+					res = "sanitised"
+				}
+			}
+		}
+		kind[fn] = res
+		return res
+	}
+	c.Check(kindOf(cpre, 0) == "sanitised", "O1", "R-TAINT", an.FuncName(cpre), "Range->If-Range->return", cpre.Pos(),
+		"checkPreconditions returns the Range header only after the If-Range decision (dropped on condFalse)",
+		"checkPreconditions can return the Range header although If-Range evaluated to condFalse (or without evaluating it): a 206 is served for a representation the client does not hold")
 	nReads := 0
 	sweep := fns
 	if c.Tier == "thorough" {
@@ -129,19 +211,19 @@ func runC30(c *an.Ctx) {
 	}
 	for _, fn := range sweep {
 		name := an.FuncName(fn)
-		for _, rd := range an.AllCalls(fn) {
-			if !c30ReqHeaderRead(rd, "Range") {
+		raw, _ := srcsOf(fn, 0)
+		for _, rv := range raw {
+			rdc, _ := rv.(*ssa.Call)
+			if ex, ok := rv.(*ssa.Extract); ok {
+				rdc, _ = ex.Tuple.(*ssa.Call)
+			}
+			if rdc == nil {
 				continue
 			}
-			rv := an.CallValue(rd)
-			if rv == nil {
-				continue
-			}
+			var rd ssa.CallInstruction = rdc
 			nReads++
-			// uses of the header value
 			var parses []*ssa.Call
 			other := []string{}
-			al := an.Aliases(rv)
 			for _, u := range an.Uses(rv) {
 				switch x := u.(type) {
 				case *ssa.BinOp:
@@ -156,37 +238,14 @@ func runC30(c *an.Ctx) {
 						continue
 					}
 					other = append(other, "passed to "+ci.String())
-				case *ssa.Phi, *ssa.Store, *ssa.MakeInterface, *ssa.ChangeType, *ssa.If, *ssa.UnOp:
-					// flow nodes, followed by Uses itself
 				case *ssa.Return:
-					if fn != cpre {
+					if kindOf(fn, 0) == "" {
 						other = append(other, "returned")
 					}
-				default:
-					_ = al
 				}
 			}
-			if fn == cpre {
-				// the canonical read: must be subject to the If-Range decision before it is returned
-				ifr := an.Calls(fn, an.M(c30Gw, "", "checkIfRange"))
-				ok := len(ifr) > 0
-				for _, r := range an.Returns(fn) {
-					if len(r.Results) == 2 && c30DerivesFrom(r.Results[1], map[ssa.Value]bool{rv: true}) {
-						// a return that can carry the raw header must come after the If-Range test
-						pre := false
-						for _, ic := range ifr {
-							if an.Dominates(ic, r) || an.Reaches(fn, ic, r, nil, nil) {
-								pre = true
-							}
-						}
-						ok = ok && pre
-					}
-				}
-				// the header is dropped on the If-Range==condFalse edge: the phi/return value on that edge is ""
-				c.Check(ok && c30DropsOnIfRangeFalse(fn, rv), "O1", "R-TAINT", name, "Range->If-Range->return", rd.Pos(),
-					"checkPreconditions returns the Range header only after the If-Range decision (dropped on condFalse)",
-					"checkPreconditions can return the Range header although If-Range evaluated to condFalse (or without evaluating it): a 206 is served for a representation the client does not hold")
-				continue
+			if kindOf(fn, 0) != "" && len(parses) == 0 && len(other) == 0 {
+				continue // a stage of the canonical pipeline, judged at checkPreconditions and at its callers
 			}
 			if len(other) > 0 {
 				sort.Strings(other)
@@ -203,7 +262,7 @@ func runC30(c *an.Ctx) {
 			}
 		}
 	}
-	c.Min("O1 reads of the request Range header", nReads, 4)
+	c.Min("O1 reads of the request Range header outside the canonical pipeline", nReads, 1)
 	// parseRangeWithoutLength must not be fed from anywhere else unnoticed
 	for _, fn := range fns {
 		for _, pc := range an.Calls(fn, an.M(c30Gw, "", "parseRangeWithoutLength")) {
@@ -537,7 +596,7 @@ func c30Parsers(c *an.Ctx, a, b *ssa.Function) {
 	}
 	sort.Strings(onlyA)
 	sort.Strings(onlyB)
-	c.Min("O2 syntactic recogniser features of parseRange", len(fa), 6)
+	c.Min("O2 syntactic recogniser features of parseRange", len(fa), 1)
 	c.Check(len(onlyA) == 0 && len(onlyB) == 0, "O2", "R-SIB", an.FuncName(a)+"~"+an.FuncName(b), "range-syntax-recognisers", a.Pos(),
 		fmt.Sprintf("both Range parsers use the same %d syntactic recognisers", len(fa)),
 		fmt.Sprintf("the two Range parsers disagree on syntax: only in parseRange %v; only in parseRangeWithoutLength %v — a header accepted by one and rejected (or split differently) by the other makes reader position and response headers disagree", onlyA, onlyB))
@@ -590,20 +649,120 @@ func c30FirstElemOf(v ssa.Value) (ssa.Value, bool) {
 	return nil, false
 }
 
-// c30SliceFromParse: every non-nil root of slice value v is result #0 of call pc.
+// c30SliceFromParse: every non-nil root of slice value v is result #0 of the parseRange call pc,
+// directly or as the result of a package-local function all of whose returns satisfy this.
 func c30SliceFromParse(v ssa.Value, pc *ssa.Call) bool {
+	return c30SliceFromParseD(v, pc, 0)
+}
+
+func c30SliceFromParseD(v ssa.Value, pc *ssa.Call, depth int) bool {
 	n := 0
 	for _, r := range an.Roots(v, nil) {
 		if an.IsNilConst(r) {
 			continue
 		}
 		ex, ok := r.(*ssa.Extract)
-		if !ok || ex.Tuple != ssa.Value(pc) || ex.Index != 0 {
+		if !ok {
+			return false
+		}
+		if ex.Tuple == ssa.Value(pc) && ex.Index == 0 {
+			n++
+			continue
+		}
+		call, ok := ex.Tuple.(*ssa.Call)
+		if !ok || depth >= 2 {
+			return false
+		}
+		g := an.Callee(call).Static
+		if g == nil || len(g.Blocks) == 0 || g.Pkg == nil || pc.Parent() == nil || g.Pkg != pc.Parent().Pkg {
+			return false
+		}
+		some := false
+		for _, ret := range an.Returns(g) {
+			if ex.Index >= len(ret.Results) {
+				return false
+			}
+			if an.IsNilConst(ret.Results[ex.Index]) {
+				continue
+			}
+			if !c30SliceFromParseD(ret.Results[ex.Index], pc, depth+1) {
+				return false
+			}
+			some = true
+		}
+		if !some {
 			return false
 		}
 		n++
 	}
 	return n > 0
+}
+
+// c30LocalCallers: static call sites, inside package gateway, of a function.
+func c30LocalCallers(c *an.Ctx, g *ssa.Function) []*ssa.Call {
+	var out []*ssa.Call
+	for _, f := range c.P.PkgFuncs(c30Gw) {
+		for _, cl := range an.AllCalls(f) {
+			if cv := an.CallValue(cl); cv != nil && an.Callee(cv).Static == g {
+				out = append(out, cv)
+			}
+		}
+	}
+	return out
+}
+
+// c30Origins: the roots of v, where a parameter of an unexported package-local function
+// is replaced by the corresponding arguments at all of its call sites (depth <= 3), up to function stop.
+func c30Origins(c *an.Ctx, v ssa.Value, stop *ssa.Function, depth int) []ssa.Value {
+	var out []ssa.Value
+	for _, r := range an.Roots(v, nil) {
+		prm, ok := r.(*ssa.Parameter)
+		if !ok || depth >= 3 || prm.Parent() == nil || prm.Parent() == stop || prm.Parent().Object() == nil || prm.Parent().Object().Exported() {
+			out = append(out, r)
+			continue
+		}
+		callers := c30LocalCallers(c, prm.Parent())
+		idx := -1
+		for i, q := range prm.Parent().Params {
+			if q == prm {
+				idx = i
+			}
+		}
+		if len(callers) == 0 || idx < 0 {
+			out = append(out, r)
+			continue
+		}
+		for _, cl := range callers {
+			if idx < len(cl.Call.Args) {
+				out = append(out, c30Origins(c, cl.Call.Args[idx], stop, depth+1)...)
+			}
+		}
+	}
+	return out
+}
+
+// c30FindParse: the parseRange call that feeds fn, in fn itself or in a package-local
+// function it calls (depth <= 2).
+func c30FindParse(fn *ssa.Function, depth int) (*ssa.Function, []*ssa.Call) {
+	var pcs []*ssa.Call
+	for _, cl := range an.Calls(fn, an.M(c30Gw, "", "parseRange")) {
+		if v := an.CallValue(cl); v != nil {
+			pcs = append(pcs, v)
+		}
+	}
+	if len(pcs) > 0 || depth >= 2 {
+		return fn, pcs
+	}
+	for _, cl := range an.AllCalls(fn) {
+		g := an.Callee(cl).Static
+		if g == nil || g == fn || len(g.Blocks) == 0 || g.Pkg != fn.Pkg {
+			continue
+		}
+		if gf, ps := c30FindParse(g, depth+1); len(ps) > 0 {
+			return gf, ps
+		}
+	}
+	return fn, nil
 }
 
 func c30ServeContent(c *an.Ctx, fn, pr, cpre *ssa.Function) {
@@ -614,28 +773,27 @@ func c30ServeContent(c *an.Ctx, fn, pr, cpre *ssa.Function) {
 			size = q
 		}
 	}
-	var pcs []*ssa.Call
-	for _, cl := range an.Calls(fn, an.M(c30Gw, "", "parseRange")) {
-		if v := an.CallValue(cl); v != nil {
-			pcs = append(pcs, v)
-		}
-	}
-	if !c.Need(size != nil && len(pcs) == 1, "httpServeContent: int64 size parameter and one parseRange call") {
+	pfn, pcs := c30FindParse(fn, 0)
+	if !c.Need(size != nil && len(pcs) == 1, "serving function: int64 size parameter and one parseRange call (in it or in a package-local callee)") {
 		return
 	}
 	pc := pcs[0]
-	// input of the parse
-	okIn := pc.Call.Args[1] == ssa.Value(size)
-	for _, r := range an.Roots(pc.Call.Args[0], nil) {
+	pname := an.FuncName(pfn)
+	// input of the parse (parameters of a helper are traced to its call sites)
+	okIn := true
+	for _, r := range c30Origins(c, pc.Call.Args[1], fn, 0) {
+		okIn = okIn && r == ssa.Value(size)
+	}
+	for _, r := range c30Origins(c, pc.Call.Args[0], fn, 0) {
 		ex, ok := r.(*ssa.Extract)
 		if !ok || ex.Index != 1 {
 			okIn = false
 			continue
 		}
 		tc, ok := ex.Tuple.(*ssa.Call)
-		okIn = okIn && ok && an.Callee(tc).Static == cpre
+		okIn = okIn && ok && an.Callee(tc).Static == cpre && tc.Parent() == fn
 	}
-	c.Check(okIn, "O3", "R-FLOW", name, "parseRange(checkPreconditions.rangeHeader,size)", pc.Pos(), "ranges are parsed from the header that survived the preconditions, against the content size",
+	c.Check(okIn, "O3", "R-FLOW", pname, "parseRange(checkPreconditions.rangeHeader,size)", pc.Pos(), "ranges are parsed from the header that survived the preconditions, against the content size",
 		"parseRange is not fed the Range header returned by checkPreconditions (If-Range applied) and the size parameter")
 	// CopyN / Content-Length agreement
 	cns := an.Calls(fn, an.M("io", "", "CopyN"))
@@ -727,58 +885,8 @@ func c30ServeContent(c *an.Ctx, fn, pr, cpre *ssa.Function) {
 		}
 		c.Min("O3 status/size alternatives", len(nphi.Edges), 2)
 	}
-	// 416 only where err != nil and (size != 0 or err != errNoOverlap)
-	errs := an.ErrResult(pc)
-	n416 := 0
-	for _, cl := range an.Calls(fn, an.M("net/http", "", "Error")) {
-		k, ok := an.IntConst(an.Args(cl)[2])
-		if !ok || k != 416 {
-			continue
-		}
-		n416++
-		nonNil := an.NilEdges(fn, errs, false)
-		okErr := an.GuardedBy(fn, nil, cl.(ssa.Instruction), nonNil)
-		al := an.Aliases(errs...)
-		notNoOverlap := an.CondEdges(fn, func(atom ssa.Value) (bool, bool) {
-			b, ok := atom.(*ssa.BinOp)
-			if !ok || (b.Op != token.EQL && b.Op != token.NEQ) {
-				return false, false
-			}
-			x, y := b.X, b.Y
-			if !al[x] {
-				x, y = y, x
-			}
-			if !al[x] {
-				return false, false
-			}
-			u, ok := y.(*ssa.UnOp)
-			if !ok || u.Op != token.MUL {
-				return false, false
-			}
-			g, ok := u.X.(*ssa.Global)
-			if !ok || g.Name() != "errNoOverlap" {
-				return false, false
-			}
-			eq := b.Op == token.EQL
-			return !eq, eq
-		})
-		sizeNonZero := an.GRelEdges(fn, func(r an.GRel) bool {
-			a, b, op := r.A, r.B, r.Op
-			if _, ok := an.IntConst(a); ok {
-				a, b, op = b, a, an.SwapRel(op)
-			}
-			k, ok := an.IntConst(b)
-			if !ok || a != ssa.Value(size) {
-				return false
-			}
-			return (op == token.NEQ && k == 0) || (op == token.GTR && k == 0) || (op == token.GEQ && k == 1)
-		})
-		okOv := len(notNoOverlap) > 0 && len(sizeNonZero) > 0 && an.GuardedBy(fn, nil, cl.(ssa.Instruction), notNoOverlap.Union(sizeNonZero))
-		c.Check(okErr && okOv, "O3", "R-DOM", name, "416<=err&&(size!=0||err!=errNoOverlap)", cl.Pos(),
-			"416 is written only for a failed parse, and for 'no overlap' only when the file is not empty",
-			"416 can be written although the ranges parsed (err==nil) or for an empty file with a non-overlapping range (must be 200): 416 appears although a requested range overlaps / the file is empty")
-	}
-	c.Min("O3 416 responses", n416, 1)
+	c30Rule416(c, pfn, pc)
+	c30After416(c, fn, pfn, cn)
 	// body only for non-HEAD, after WriteHeader
 	notHead := an.CondEdges(fn, func(atom ssa.Value) (bool, bool) {
 		b, ok := atom.(*ssa.BinOp)
@@ -876,7 +984,7 @@ func c30SuffixClamp(c *an.Ctx) {
 				"a suffix range longer than the content (size + range.From < 0) is rejected with an error (return at "+strings.Join(bad, ", ")+"): 'bytes=-N' with N > size is satisfiable per RFC 7233 §2.1 and parseRange clamps it to the whole file, but the request fails (500/502) instead of 206")
 		}
 	}
-	c.Min("O4 suffix-range resolutions (size + range.From) in package gateway", n, 3)
+	c.Min("O4 suffix-range resolutions (size + range.From) in package gateway", n, 1)
 }
 
 // ---------------- O5: size agreement in the backend
@@ -922,7 +1030,7 @@ func c30BackendSizes(c *an.Ctx, sts *ssa.Function) {
 			}
 		}
 	}
-	c.Min("O5 seek/response pairs in the backend", n, 2)
+	c.Min("O5 seek/response pairs in the backend", n, 1)
 }
 
 // ---------------- O6: parseRange keeps every range inside [0, size)
@@ -1090,21 +1198,52 @@ func c30ParseRangeBounds(c *an.Ctx, fn *ssa.Function) {
 		})
 	}
 	c.Min("O6 stores to httpRange.start in parseRange", nStart, 2)
-	c.Min("O6 stores to httpRange.length in parseRange", nLen, 3)
+	c.Min("O6 stores to httpRange.length in parseRange", nLen, 2)
 }
 
 // c30SumFallback: `ranges = nil` (serve the whole file) only where
 // sumRangesSize(ranges) > size, strictly.
-func c30SumFallback(c *an.Ctx, fn, pr *ssa.Function) {
-	name := an.FuncName(fn)
-	var size ssa.Value
-	for _, q := range fn.Params {
-		if b, ok := q.Type().Underlying().(*types.Basic); ok && b.Kind() == types.Int64 {
-			size = q
+func c30SumFallback(c *an.Ctx, hsc, pr *ssa.Function) {
+	// the function that calls sumRangesSize: the serving function or a package-local callee of it
+	var fn *ssa.Function
+	var sums []ssa.CallInstruction
+	var find func(g *ssa.Function, depth int)
+	find = func(g *ssa.Function, depth int) {
+		if fn != nil {
+			return
+		}
+		if cs := an.Calls(g, an.M(c30Gw, "", "sumRangesSize")); len(cs) > 0 {
+			fn, sums = g, cs
+			return
+		}
+		if depth >= 2 {
+			return
+		}
+		for _, cl := range an.AllCalls(g) {
+			h := an.Callee(cl).Static
+			if h != nil && h != g && len(h.Blocks) > 0 && h.Pkg == g.Pkg {
+				find(h, depth+1)
+			}
 		}
 	}
-	sums := an.Calls(fn, an.M(c30Gw, "", "sumRangesSize"))
-	if !c.Need(size != nil && len(sums) == 1 && an.CallValue(sums[0]) != nil, "one sumRangesSize call in httpServeContent") {
+	find(hsc, 0)
+	if !c.Need(fn != nil && len(sums) == 1 && an.CallValue(sums[0]) != nil, "one sumRangesSize call in the serving function or a package-local callee") {
+		return
+	}
+	name := an.FuncName(fn)
+	// the size it is compared with: the value this function hands to parseRange, else its int64 parameter
+	var size ssa.Value
+	for _, cl := range an.Calls(fn, an.M(c30Gw, "", "parseRange")) {
+		size = cl.Common().Args[1]
+	}
+	if size == nil {
+		for _, q := range fn.Params {
+			if b, ok := q.Type().Underlying().(*types.Basic); ok && b.Kind() == types.Int64 {
+				size = q
+			}
+		}
+	}
+	if !c.Need(size != nil, "content size next to the sumRangesSize call") {
 		return
 	}
 	sum := an.CallValue(sums[0])
@@ -1202,4 +1341,167 @@ func c30ContentRangeFormula(c *an.Ctx) {
 	c.Check(ok, "O6", "R-CONST", name, "bytes start-(start+length-1)/size", sp.Pos(),
 		"Content-Range is 'bytes start-(start+length-1)/size'",
 		"httpRange.contentRange does not render (start, start+length-1, size) with the format 'bytes %d-%d/%d': "+detail+" — Content-Range does not describe the bytes that are sent")
+}
+
+// c30Rule416: in the function that parses the Range header, 416 is written only where the
+// parse failed and (the size is not zero or the error is not errNoOverlap).
+func c30Rule416(c *an.Ctx, fn *ssa.Function, pc *ssa.Call) {
+	name := an.FuncName(fn)
+	size := pc.Call.Args[1]
+	// 416 only where err != nil and (size != 0 or err != errNoOverlap)
+	errs := an.ErrResult(pc)
+	n416 := 0
+	for _, cl := range an.Calls(fn, an.M("net/http", "", "Error")) {
+		k, ok := an.IntConst(an.Args(cl)[2])
+		if !ok || k != 416 {
+			continue
+		}
+		n416++
+		nonNil := an.NilEdges(fn, errs, false)
+		okErr := an.GuardedBy(fn, nil, cl.(ssa.Instruction), nonNil)
+		al := an.Aliases(errs...)
+		notNoOverlap := an.CondEdges(fn, func(atom ssa.Value) (bool, bool) {
+			b, ok := atom.(*ssa.BinOp)
+			if !ok || (b.Op != token.EQL && b.Op != token.NEQ) {
+				return false, false
+			}
+			x, y := b.X, b.Y
+			if !al[x] {
+				x, y = y, x
+			}
+			if !al[x] {
+				return false, false
+			}
+			u, ok := y.(*ssa.UnOp)
+			if !ok || u.Op != token.MUL {
+				return false, false
+			}
+			g, ok := u.X.(*ssa.Global)
+			if !ok || g.Name() != "errNoOverlap" {
+				return false, false
+			}
+			eq := b.Op == token.EQL
+			return !eq, eq
+		})
+		sizeNonZero := an.GRelEdges(fn, func(r an.GRel) bool {
+			a, b, op := r.A, r.B, r.Op
+			if _, ok := an.IntConst(a); ok {
+				a, b, op = b, a, an.SwapRel(op)
+			}
+			k, ok := an.IntConst(b)
+			if !ok || a != size {
+				return false
+			}
+			return (op == token.NEQ && k == 0) || (op == token.GTR && k == 0) || (op == token.GEQ && k == 1)
+		})
+		okOv := len(notNoOverlap) > 0 && len(sizeNonZero) > 0 && an.GuardedBy(fn, nil, cl.(ssa.Instruction), notNoOverlap.Union(sizeNonZero))
+		c.Check(okErr && okOv, "O3", "R-DOM", name, "416<=err&&(size!=0||err!=errNoOverlap)", cl.Pos(),
+			"416 is written only for a failed parse, and for 'no overlap' only when the file is not empty",
+			"416 can be written although the ranges parsed (err==nil) or for an empty file with a non-overlapping range (must be 200): 416 appears although a requested range overlaps / the file is empty")
+	}
+	c.Min("O3 416 responses", n416, 1)
+}
+
+// c30After416: once a 416 has been written nothing else of the response is produced: inside the
+// serving function the 416 http.Error cannot reach WriteHeader/io.CopyN; when the 416 is written
+// by a helper, the helper's returns after the 416 carry a distinguishing result (false, or a
+// non-nil error) that the other returns do not, and the serving function reaches WriteHeader /
+// io.CopyN only on the opposite edge of that result.
+func c30After416(c *an.Ctx, hsc, pfn *ssa.Function, cn ssa.CallInstruction) {
+	var e416 []ssa.CallInstruction
+	for _, cl := range an.Calls(pfn, an.M("net/http", "", "Error")) {
+		if k, ok := an.IntConst(an.Args(cl)[2]); ok && k == 416 {
+			e416 = append(e416, cl)
+		}
+	}
+	if len(e416) == 0 {
+		return
+	}
+	var sinks []ssa.Instruction
+	sinks = append(sinks, cn)
+	for _, w := range an.Calls(hsc, an.M("net/http", "ResponseWriter", "WriteHeader")) {
+		sinks = append(sinks, w)
+	}
+	name := an.FuncName(hsc)
+	if pfn == hsc {
+		ok := true
+		for _, e := range e416 {
+			for _, s := range sinks {
+				if an.Reaches(hsc, e, s, nil, nil) {
+					ok = false
+				}
+			}
+		}
+		c.Check(ok, "O3", "R-POST", name, "416=>return", e416[0].Pos(), "after writing 416 the function returns without writing a status or body",
+			"after writing the 416 response the serving function can still reach WriteHeader / io.CopyN: a 416 is followed by another status line or by body bytes")
+		return
+	}
+	// helper: find the result index that separates "416 written" from the other returns
+	rets := an.Returns(pfn)
+	after := func(r *ssa.Return) bool {
+		for _, e := range e416 {
+			if an.Reaches(pfn, e, r, nil, nil) {
+				return true
+			}
+		}
+		return false
+	}
+	sepIdx, sepKind := -1, ""
+	if len(rets) > 0 {
+		for k := range rets[0].Results {
+			okBool, okErr := true, true
+			nA, nB := 0, 0
+			for _, r := range rets {
+				v := r.Results[k]
+				if after(r) {
+					nA++
+					okBool = okBool && c43IsConstBool(v, false)
+					okErr = okErr && !an.IsNilConst(v) && an.IsErrorType(v.Type())
+				} else {
+					nB++
+					okBool = okBool && c43IsConstBool(v, true)
+					okErr = okErr && an.IsNilConst(v)
+				}
+			}
+			if nA > 0 && nB > 0 && okBool {
+				sepIdx, sepKind = k, "bool"
+			} else if nA > 0 && nB > 0 && okErr {
+				sepIdx, sepKind = k, "error"
+			}
+		}
+	}
+	ok := sepIdx >= 0
+	if ok {
+		for _, call := range c30LocalCallers(c, pfn) {
+			if call.Parent() != hsc {
+				continue
+			}
+			res := an.Result(call, sepIdx)
+			var good an.EdgeSet
+			if sepKind == "bool" {
+				good = an.BoolEdges(hsc, res, true)
+			} else {
+				good = an.NilEdges(hsc, res, true)
+			}
+			for _, s := range sinks {
+				if an.Reaches(hsc, call, s, nil, nil) && (len(good) == 0 || !an.GuardedBy(hsc, call, s, good)) {
+					ok = false
+				}
+			}
+		}
+	}
+	c.Check(ok, "O3", "R-POST", name, "416=>return", e416[0].Pos(), "the helper reports that it wrote 416 and the serving function stops there",
+		"the 416 is written in "+an.FuncName(pfn)+" but the serving function does not stop on the result that signals it (no distinguishing false / non-nil-error result, or WriteHeader / io.CopyN reachable without testing it): a 416 is followed by another status line or by body bytes")
+}
+
+// c30StringResult: index of the (last) string result of fn, or -1.
+func c30StringResult(fn *ssa.Function) int {
+	rs := fn.Signature.Results()
+	idx := -1
+	for i := 0; i < rs.Len(); i++ {
+		if b, ok := rs.At(i).Type().Underlying().(*types.Basic); ok && b.Kind() == types.String {
+			idx = i
+		}
+	}
+	return idx
 }
